@@ -47,15 +47,17 @@ def subMod (q s1 s2 : Nat) : Nat :=
   if s2 > s1 then s1 + q - s2 else s1 - s2
 
 /-- `ring.ModexpMontgomery`, one modulus, on canonical residues:
-`for i := e; i > 0; i >>= 1 { if i&1 == 1 { result = result*x }; x = x*x }`. -/
-def powLoop (q : Nat) (e x result : Nat) : Nat :=
-  if _h : e = 0 then result
-  else powLoop q (e / 2) (x * x % q) (if e % 2 = 1 then result * x % q else result)
-termination_by e
-decreasing_by omega
+`for i := e; i > 0; i >>= 1 { if i&1 == 1 { result = result*x }; x = x*x }`.
+`fuel` only makes the recursion structural (so that the kernel can evaluate it); the loop stops
+at `e = 0`, and `fuel = e` is always enough. -/
+def powLoop (q : Nat) : Nat → Nat → Nat → Nat → Nat
+  | 0, _, _, result => result
+  | fuel + 1, e, x, result =>
+    if e = 0 then result
+    else powLoop q fuel (e / 2) (x * x % q) (if e % 2 = 1 then result * x % q else result)
 
-/-- `x^e mod q` by the loop of `ModexpMontgomery` (`result` starts at `1`). -/
-def powMod (q x e : Nat) : Nat := powLoop q e x (1 % q)
+/-- `x^e mod q` by the loop of `ModexpMontgomery` (`result` starts at `MForm(1)`, i.e. `1`). -/
+def powMod (q x e : Nat) : Nat := powLoop q e e x (1 % q)
 
 /-- `ring.Inverse`, one modulus: `a^(q-2)`; in particular `inverse q 0 = 0` for `q > 2`. -/
 def inverse (q a : Nat) : Nat := powMod q a (q - 2)
